@@ -51,11 +51,14 @@ def _perf_counter():
 FAKE_PID_BASE = 4_100_000      # above Linux pid_max: never a real process
 
 
-def fake_pid(proc):
+def fake_pid(proc, mod=0):
     if proc == "main":
         return FAKE_PID_BASE
     digits = "".join(c for c in proc if c.isdigit())
-    return FAKE_PID_BASE + (int(digits) if digits else 999)
+    k = int(digits) if digits else 999
+    if mod:
+        k = 1 + k % mod         # processes on different hosts (pid namespaces) that happen to have equal pids
+    return FAKE_PID_BASE + k
 
 
 def _getpid():
@@ -67,7 +70,7 @@ def _getpid():
         import sys
         caller = sys._getframe(1).f_globals.get("__name__", "")
         if caller == "toasty" or caller.startswith("toasty."):
-            return fake_pid(t.proc)
+            return fake_pid(t.proc, getattr(t.sim, "pid_mod", 0))
     return _installed["os.getpid"]()
 
 
@@ -262,6 +265,20 @@ def install():
     from toasty import image as timage
     from toasty import pyramid as tpyramid
 
+    _installed["load_path"] = timage.ImageLoader.load_path
+    _orig_load_path = timage.ImageLoader.load_path
+
+    def load_path(self, path):
+        # the storage layer beneath toasty's tile reader: a simulated file-server fault surfaces here, inside
+        # PyramidIO.read_image and whatever error handling it has
+        t = current_task()
+        if t is not None:
+            f = getattr(t.sim, "load_fault", None)
+            if f is not None:
+                f(path)
+        return _orig_load_path(self, path)
+
+    timage.ImageLoader.load_path = load_path
     _installed["Image.save"] = timage.Image.save
     timage.Image.save = _make_save(timage.Image.save)
     _installed["read_image"] = tpyramid.PyramidIO.read_image
